@@ -463,7 +463,8 @@ P["C19"] = dict(
     claimed=True,
     technique="static analysis: element-wise value-graph comparison of every CoordinateSet impl with the documented "
               "defaults; dominance of dimension guards; sign-carrier rule for the sexagesimal conversions",
-    decides=["R-SETTER-NO-INVENTED: the specialised set_xy / set_xyz of coordinate::set store no tuple built with a constant element",
+    decides=["R-ANGULAR-ACCESSORS: each *_to_<unit> default accessor converts x and y alike, and the 2-, 3- and 4-element variants of a unit agree",
+             "R-SETTER-NO-INVENTED: the specialised set_xy / set_xyz of coordinate::set store no tuple built with a constant element",
              "R-WIDEN-FIRST: functions of coordinate:: that return f64 (or an f64 tuple) do no arithmetic in f32",
              "R-ISO-OPERATORS-PLAIN: the dm / dms operators apply the ISO-6709 conversions and nothing else in their loops",
              "R-OPS-ELEMENTWISE: the 40 macro-generated + - * / operators of the tuple types compute element k from elements k of both operands, for all k below the dimension",
